@@ -118,6 +118,11 @@ func DoBatchWithOptions(ctx context.Context, op Operation, r DoBatchRing, keys [
 		o.Cleanup()
 		return fmt.Errorf("DoBatch: InstancesCount <= 0")
 	}
+	if len(keys) == 0 {
+		// Nothing to do: no callback will ever signal completion, so return right away.
+		o.Cleanup()
+		return nil
+	}
 	expectedTrackersPerInstance := len(keys) * (r.ReplicationFactor() + 1) / r.InstancesCount()
 	itemTrackers := make([]itemTracker, len(keys))
 	instances := make(map[string]instance, r.InstancesCount())
